@@ -37,15 +37,16 @@ def capability(enc, cfg):
     return (d - 1) // 2, d, src
 
 
-def received_word(ctx, enc, shape_lead, tag, t):
+def received_word(ctx, enc, shape_lead, tag, t, blocks=1):
     """symbolic m, e with wt(e) <= t per block; r = forward(m) xor e.  Returns (m, e, r) tensors"""
     k, n = enc.generator_matrix.shape
     G = SP.int_matrix(enc.generator_matrix)
-    m = ctx.bits(f"m{tag}", shape_lead + (k,))
-    e = ctx.bits(f"e{tag}", shape_lead + (n,), sampler=_sparse_sampler(n, t))
+    m = ctx.bits(f"m{tag}", shape_lead + (blocks * k,))
+    e = ctx.bits(f"e{tag}", shape_lead + (blocks * n,), sampler=_sparse_sampler(n, t))
     ep = P(e)
     for pos in np.ndindex(*shape_lead):
-        ctx.assume(S.le(SP.weight(ep[pos]), t))
+        for blk in range(blocks):
+            ctx.assume(S.le(SP.weight(ep[pos][blk * n : (blk + 1) * n]), t))
     cw = SP.blockwise(P(m), k, lambda v: SP.gf2_vecmat(v, G))  # forward(m) by C01's contract
     r = np.empty(cw.shape, dtype=object)
     for idx in np.ndindex(*cw.shape):
@@ -124,7 +125,7 @@ def _syn_var_cfgs(tier):
     out = []
     for c in _syn_cfgs(tier):
         n = codes.build(c).generator_matrix.shape[1]
-        out += codes.with_variants([c], ["1d", "B1"] + (["ml"] if n <= 12 else []))
+        out += codes.with_variants([c], ["1d", "B1", "Bb", "1db"] + (["ml"] if n <= 12 else []))
     return out
 
 
@@ -207,7 +208,7 @@ def _bf_cfgs(tier):
 @obligation(
     "C02.brute_force_ml",
     function=FD + "brute_force_ml.py:BruteForceMLDecoder.forward; " + FD + "brute_force_ml.py:BruteForceMLDecoder._decode_batch; " + FD + "brute_force_ml.py:BruteForceMLDecoder._hamming_distance; " + FD + "brute_force_ml.py:BruteForceMLDecoder._generate_codebook",
-    configs=lambda tier: codes.with_variants(_bf_cfgs(tier), ["1d", "B2", "ml"]),
+    configs=lambda tier: codes.with_variants(_bf_cfgs(tier), ["1d", "B2", "Bb", "ml"]),
     timeout_ms=60000,
 )
 def brute_force(ctx, vcfg):
@@ -224,15 +225,16 @@ def brute_force(ctx, vcfg):
         if out.ok:
             ctx.ensure("minimum_distance_decoding", ml_claim(P(out.value).reshape(-1), list(P(y)), G))
         return
-    lead = () if name == "1d" else (2,)
-    m, e, r, _ = received_word(ctx, enc, lead, "", t)
+    lead = () if name == "1d" else ((2,) if name == "B2" else (1,))
+    nb = 2 if name == "Bb" else 1
+    m, e, r, _ = received_word(ctx, enc, lead, "", t, blocks=nb)
     out = ctx.call(dec.forward, r, return_errors=True)
     ctx.ensure("returns", out.ok, note=repr(out.exc) if not out.ok else "")
     if not out.ok:
         return
     decoded, errors = out.value
-    ctx.ensure("corrects_up_to_t", SP.shape_is(decoded, lead + (k,)) and SP.all_eq(P(decoded), P(m)), note=f"t={t} from {src}")
-    ctx.ensure("reports_error_pattern", SP.shape_is(errors, lead + (n,)) and SP.all_eq(P(errors), P(e)))
+    ctx.ensure("corrects_up_to_t", SP.shape_is(decoded, lead + (nb * k,)) and SP.all_eq(P(decoded), P(m)), note=f"t={t} from {src}")
+    ctx.ensure("reports_error_pattern", SP.shape_is(errors, lead + (nb * n,)) and SP.all_eq(P(errors), P(e)))
     ctx.ensure("input_unmodified", out.unmodified)
 
 
@@ -363,8 +365,31 @@ def _bounded_decoder(spec, cfg, tier, seed, kind, function):
             bad = next(i for i in range(len(want)) if got[i] != want[i])
             fail_batch = {"batch_messages": want, "error_positions": [list(p) for _, p in chunk], "row": bad, "decoded_row": got[bad]}
             break
+    # two codewords per row: the documented (..., m*n) layout must decode per block
+    fail_multi = None
+    for b in range(0, min(len(cases), 200), 4):
+        chunk = cases[b : b + 4]
+        if len(chunk) < 4:
+            break
+        rows, want = [], []
+        for mi, p in chunk:
+            cw = Gd.encode(Gm, [(mi >> i) & 1 for i in range(k)])
+            for j in p:
+                cw ^= 1 << j
+            rows.append([float((cw >> j) & 1) for j in range(n)])
+            want.append([(mi >> i) & 1 for i in range(k)])
+        x = torch.tensor(rows).reshape(2, 2 * n)
+        evals += 1
+        try:
+            out = dec(x)
+            got = [[int(round(float(v))) for v in row] for row in out.reshape(4, -1).tolist()] if out.numel() == 4 * k else None
+        except Exception as ex:
+            got = repr(ex)[:120]
+        if got != want:
+            fail_multi = {"layout": "(2, 2n)", "messages": want, "error_positions": [list(p) for _, p in chunk], "observed": got}
+            break
     res = []
-    for name, fail in (("corrects_up_to_t.single_rows", fail_single), ("corrects_up_to_t.batches", fail_batch)):
+    for name, fail in (("corrects_up_to_t.single_rows", fail_single), ("corrects_up_to_t.batches", fail_batch), ("corrects_up_to_t.two_blocks_per_row", fail_multi)):
         r = ObResult(prop="C02", ob=f"{spec.id}/{name}", config=str(cfg), function=function, engine="standin", backend="native", kind="bounded")
         r.verdict = "discharged" if fail is None else "refuted"
         r.paths = evals
